@@ -223,7 +223,7 @@ class CanonLog(list):
         list.append(self, tuple(ev[:2]) + tuple(XR.canon(x) for x in ev[2:]))
 
 
-def hook_ref(ib, iu, log):
+def hook_ref(ib, iu, log, is_async=False):
     """the reference evaluator of expr_ref with the documented interception rule: an intercepted operator application
     goes to the hook with its two (one) operand values, its value is the hook's value; nothing else goes to the hook"""
     import jinja2
@@ -243,7 +243,7 @@ def hook_ref(ib, iu, log):
                 return r + 1000 if type(r) is int else r
             return XR.Ref.ev(self, e, data)
 
-    return HookRef(jinja2.Undefined, sandboxed=True)
+    return HookRef(jinja2.Undefined, sandboxed=True, is_async=is_async)
 
 
 def run_wild(ctx):
@@ -281,7 +281,7 @@ def run_wild(ctx):
         rlog = list(log)
         elog = CanonLog()
         try:
-            exp = ("ok", XR.canon(hook_ref(ib, iu, elog).ev(e, XR.wild_data(seed, []))))
+            exp = ("ok", XR.canon(hook_ref(ib, iu, elog, kind == "async").ev(e, XR.wild_data(seed, []))))
         except RecursionError:
             exp = ("err", "RecursionError")
         except Exception as ex:
